@@ -104,6 +104,7 @@ pub fn op(mix: Mix) -> BoxedStrategy<Op> {
     if mix.alloc_opts > 0 {
         v.push((mix.alloc_opts, (any::<u8>(), any::<u8>(), 0u8..8, prop_oneof![4 => Just(0u8), 1 => Just(2u8), 1 => Just(1u8), 1 => Just(6u8)], any::<bool>(), any::<bool>(), any::<bool>()).prop_map(|(m, root, size_class, sem, overcommit, at_safepoint, allow_oom)| Op::AllocOpts { m, root, size_class, sem, overcommit, at_safepoint, allow_oom }).boxed()));
     }
+    v.retain(|(w, _)| *w > 0);
     proptest::strategy::Union::new_weighted(v).boxed()
 }
 
@@ -207,16 +208,23 @@ pub fn c09_case(long: bool) -> BoxedStrategy<Case> {
 pub fn c10_case() -> BoxedStrategy<Case> {
     let plans = &COLLECTING_PLANS;
     let mix = Mix { alloc_opts: 40, churn_weight: 0, gc_weight: 1, big: false, sems: false, region_copy: false, old_young: 0, mutator_ops: false, ..Mix::BASIC };
-    (0..plans.len(), any::<u8>(), 1u8..4, 3000u32..9000, 30u8..90, prop::collection::vec(op(mix), 10..50))
+    // Heaps of at least 9 MiB: every contiguous space reserves max(2 x heap, 8 MiB) of virtual memory minus one
+    // chunk for its free-list table, so in smaller heaps a copying GC over a nearly full heap can run out
+    // of *virtual* space (known finding C01 panic@src/policy/space.rs:246, which is not what C10 is about).
+    (0..plans.len(), any::<u8>(), 1u8..4, 9000u32..20000, 30u8..90, prop::collection::vec(op(mix), 10..50))
         .prop_map(move |(pi, v, workers, heap_kb, fill_pct, tail)| {
             let plan = plans[pi];
+            // StickyImmix copies every young survivor in a nursery GC: keep the reachable young volume below
+            // half of the heap so that the copies fit into the reserved extent (same known finding).
+            let fill_pct = if plan == "StickyImmix" { fill_pct.min(45) } else { fill_pct };
             let mut ops = vec![];
             // reachable fill: chains of ~1 KiB objects
             let target_kb = heap_kb as usize * fill_pct as usize / 100;
-            let per_chain_kb = 48usize;
-            let chains = (target_kb / per_chain_kb).min(200);
+            let extra: u16 = if heap_kb > 12000 { 2008 } else { 984 };
+            let per_chain_kb = 48 * (extra as usize + 40) / 1024;
+            let chains = (target_kb / per_chain_kb).min(220);
             for k in 0..chains {
-                ops.push(Op::Chain { m: 0, root: ((k * 5) % 240) as u8, n: 47, extra: 980, sem: 0 });
+                ops.push(Op::Chain { m: 0, root: ((k * 5) % 240) as u8, n: 47, extra, sem: 0 });
                 if k % 5 == 4 {
                     // link chains together so that few roots keep everything alive
                     ops.push(Op::Write { m: 0, src: ((k * 5) % 240) as u8, field: 255, dm: 0, dst: (((k - 1) * 5) % 240) as u8, null: false });
